@@ -9,7 +9,8 @@
 From Coq Require Import Reals ZArith List.
 From PyLib Require Import PyVal PyBuiltins Ideal.
 From Gen Require Import M_base M_Angle M_CurveFitting.
-From Proofs.C17 Require Import C17_tac C17_sums C17_fits C17_general C17_corr C17_main C17_ctor.
+From Coq Require Import Permutation.
+From Proofs.C17 Require Import C17_tac C17_sums C17_fits C17_general C17_corr C17_main C17_ctor C17_more.
 Import ListNotations.
 Open Scope R_scope.
 
@@ -160,6 +161,53 @@ Proof.
         (conj ctor_copy (ctor_one_pair x0 y0)))))).
 Qed.
 
+(* collinear data y = al*x + be (al <> 0, abscissae not all equal): r is exactly +1 or -1 *)
+Theorem C17_correlation_collinear : forall xs al be, 0 < var_x xs ->
+  (0 < al -> CurveFitting_correlation_coeff Rops (cf_of xs (map (aff al be) xs)) = VFloat 1)
+  /\ (al < 0 -> CurveFitting_correlation_coeff Rops (cf_of xs (map (aff al be) xs)) = VFloat (-1)).
+Proof. exact correlation_collinear_pm. Qed.
+
+(* r is unchanged by a positive affine rescaling x -> a*x + b of either variable, and changes
+   sign under a negative one, in particular when one variable is negated *)
+Theorem C17_correlation_rescaling : forall xs ys a b, length xs = length ys ->
+  0 < var_x xs -> 0 < var_y xs ys ->
+  CurveFitting_correlation_coeff Rops (cf_of xs ys) = VFloat (r_of xs ys)
+  /\ (0 < a -> CurveFitting_correlation_coeff Rops (cf_of (map (aff a b) xs) ys) = VFloat (r_of xs ys)
+              /\ CurveFitting_correlation_coeff Rops (cf_of xs (map (aff a b) ys)) = VFloat (r_of xs ys))
+  /\ (a < 0 -> CurveFitting_correlation_coeff Rops (cf_of (map (aff a b) xs) ys) = VFloat (- r_of xs ys)
+              /\ CurveFitting_correlation_coeff Rops (cf_of xs (map (aff a b) ys)) = VFloat (- r_of xs ys))
+  /\ CurveFitting_correlation_coeff Rops (cf_of (map Ropp xs) ys) = VFloat (- r_of xs ys).
+Proof. exact correlation_rescaling_all. Qed.
+
+(* the order of the points is irrelevant: for a permutation l' of the list l of points (x, y),
+   linear fit, quadratic fit and correlation coefficient are the same, and so is the general fit
+   with arbitrary basis functions in every branch its closed forms cover *)
+Theorem C17_permutation_invariance : forall l l', Permutation l l' ->
+  CurveFitting_linear_fitting Rops (cf_of (pxs l') (pys l')) = CurveFitting_linear_fitting Rops (cf_of (pxs l) (pys l))
+  /\ CurveFitting_quadratic_fitting Rops (cf_of (pxs l') (pys l')) = CurveFitting_quadratic_fitting Rops (cf_of (pxs l) (pys l))
+  /\ CurveFitting_correlation_coeff Rops (cf_of (pxs l') (pys l')) = CurveFitting_correlation_coeff Rops (cf_of (pxs l) (pys l)).
+Proof. exact permutation_invariance. Qed.
+
+Theorem C17_general_permutation_invariance :
+  forall (call : val R -> list (val R) -> val R) i0 i1 i2 e0 e1 e2 (g0 g1 g2 : R -> R),
+  (forall x, call (VFun i0 e0) [VFloat x] = VFloat (g0 x)) ->
+  (forall x, call (VFun i1 e1) [VFloat x] = VFloat (g1 x)) ->
+  (forall x, call (VFun i2 e2) [VFloat x] = VFloat (g2 x)) ->
+  forall p l l', Permutation (p :: l) l' ->
+  covered (G00 g0 (pxs (p :: l)) (pys (p :: l))) (G11 g1 (pxs (p :: l)) (pys (p :: l)))
+          (G22 g2 (pxs (p :: l)) (pys (p :: l))) ->
+  CurveFitting_general_fitting (RopsC call) (cf_of (pxs l') (pys l')) (VFun i0 e0) (VFun i1 e1) (VFun i2 e2)
+  = CurveFitting_general_fitting (RopsC call) (cf_of (pxs (p :: l)) (pys (p :: l))) (VFun i0 e0) (VFun i1 e1) (VFun i2 e2).
+Proof. exact general_permutation_invariance_cf. Qed.
+
+(* noiseless data are recovered exactly: points on a line / parabola give back its coefficients *)
+Theorem C17_noiseless_recovered : forall xs a b c,
+  (TOL <= Rabs (lin_det (nR xs) (Sx xs) (Sx2 xs)) ->
+   CurveFitting_linear_fitting Rops (cf_of xs (map (aff a b) xs)) = VTuple [VFloat a; VFloat b])
+  /\ (TOL <= Rabs (quad_det (nR xs) (Sx xs) (Sx2 xs) (Sx3 xs) (Sx4 xs)) ->
+      CurveFitting_quadratic_fitting Rops (cf_of xs (map (quadf a b c) xs)) = VTuple [VFloat a; VFloat b; VFloat c]).
+Proof. intros xs a b c. split; [exact (linear_recovers xs a b) | exact (quadratic_recovers xs a b c)]. Qed.
+
 Redirect "C17_sums.assumptions" Print Assumptions C17_sums.
 Redirect "C17_linear_normal_equations.assumptions" Print Assumptions C17_linear_normal_equations.
 Redirect "C17_quadratic_normal_equations.assumptions" Print Assumptions C17_quadratic_normal_equations.
@@ -169,3 +217,8 @@ Redirect "C17_general_eq_linear.assumptions" Print Assumptions C17_general_eq_li
 Redirect "C17_degenerate_refused.assumptions" Print Assumptions C17_degenerate_refused.
 Redirect "C17_correlation.assumptions" Print Assumptions C17_correlation.
 Redirect "C17_input_forms.assumptions" Print Assumptions C17_input_forms.
+Redirect "C17_correlation_collinear.assumptions" Print Assumptions C17_correlation_collinear.
+Redirect "C17_correlation_rescaling.assumptions" Print Assumptions C17_correlation_rescaling.
+Redirect "C17_permutation_invariance.assumptions" Print Assumptions C17_permutation_invariance.
+Redirect "C17_general_permutation_invariance.assumptions" Print Assumptions C17_general_permutation_invariance.
+Redirect "C17_noiseless_recovered.assumptions" Print Assumptions C17_noiseless_recovered.
